@@ -308,6 +308,33 @@ def check_poly_program(prog, reckind, seed, only=None):
                             evals += 1
                             cmp(r, Hf.dot(v), MHf.dot(np.abs(v)), what, fails, stats)
                     done(drv, hz)
+    # two calls of the same driver on ONE graph at different points; the first result object is kept (not copied) and
+    # judged only after the second call: a driver must not hand out memory that a later call overwrites
+    if only is None:
+        pa = np.array(PR.POINTS[REC_POINT], dtype=float)
+        pb = np.array(PR.POINTS[0], dtype=float)
+        Ja, MJa = ex.jac_at(pa)
+        v = vecs(NX, seed, 1)[1]
+        w = vecs(M, seed, 2)[1]
+        pairs = [('jacobian', lambda cg, pt: cg.jacobian(pt), lambda J: J, lambda MJ: MJ),
+                 ('vec_jac', lambda cg, pt: cg.vec_jac(w, pt), lambda J: w.dot(J), lambda MJ: np.abs(w).dot(MJ)),
+                 ('jac_vec', lambda cg, pt: cg.jac_vec(pt, v), lambda J: J.dot(v).reshape(oshape), lambda MJ: MJ.dot(np.abs(v)).reshape(oshape))]
+        if scalar:
+            pairs.append(('gradient', lambda cg, pt: cg.gradient(pt), lambda J: J[0], lambda MJ: MJ[0]))
+        for nm, fcall, fexp, fmaj in pairs:
+            what = '%s@kept-result' % nm
+            try:
+                cg = fresh(prog, reckind, seed)
+                r1 = fcall(cg, pa)
+                r2 = fcall(cg, pb)
+            except Exception:
+                Function.cgraph = None
+                continue
+            finally:
+                Function.cgraph = None
+            evals += 1
+            cmp(r1, fexp(Ja), fmaj(MJa), what, fails, stats)
+            keys.append('%s|%s|kept|%s' % (PR.prog_str(prog), reckind, nm))
     return evals, keys, fails, stats, None
 
 
